@@ -413,6 +413,84 @@ func TestRegr_C12_deep_reorg_crash(t *testing.T) {
 	vt.KnownFinding(t, col, "C12-deepreorg", fails, detail)
 }
 
+// TestRegr_C12_deep_reorg_crash_small replays known finding C12-deepreorg at a hook prune depth of 3
+// (the scenario of TestRegr_C12_deep_reorg_crash stopped failing with repair 31, which changed the
+// order of the writes when the new best chain is SHORTER; this is the same defect with a new best
+// chain that is longer): genesis - a1; sibling b1 of a1; a2..a5; Clean; Save; b2..b6 (the stale
+// fork overtakes from below the prune depth); the process stops after the first storage write of
+// the following Clean (main header file rewritten with the b chain, branch files still describe
+// the a chain): the loaded repository reports tip a5 but Hash(1) = b1.
+func TestRegr_C12_deep_reorg_crash_small(t *testing.T) {
+	col := evid.For("C12", "crash", "")
+	ctx := vt.Ctx()
+	store := memstore.New()
+	cfg := &headers.Config{Network: bitcoin.MainNet, MaxBranchDepth: 1}
+	repo := headers.NewRepository(cfg, store)
+	repo.DisableDifficulty()
+	repo.InitializeWithGenesis()
+	mk := func(prev model.RawHeader, salt uint32) model.RawHeader {
+		raw := model.RawHeader{Version: 1, Prev: prev.Hash(), Timestamp: prev.Timestamp + 600, Bits: 0x1d00ffff, Nonce: salt}
+		raw.Merkle[0] = byte(salt)
+		if err := repo.ProcessHeader(ctx, toWire(&raw)); err != nil {
+			t.Fatalf("header %d: %s", salt, err)
+		}
+		return raw
+	}
+	a := []model.RawHeader{mainGenesis, mk(mainGenesis, 1)}
+	b := []model.RawHeader{mainGenesis, mk(mainGenesis, 101)}
+	for i := 2; i <= 5; i++ {
+		a = append(a, mk(a[i-1], uint32(i)))
+	}
+	if err := repo.VerifClean(ctx, 3); err != nil {
+		t.Fatal(err)
+	}
+	if err := repo.Save(ctx); err != nil {
+		t.Fatal(err)
+	}
+	for i := 2; i <= 6; i++ {
+		b = append(b, mk(b[i-1], uint32(100+i)))
+	}
+	if got := repo.LastHash(); model.Hash(got) != b[6].Hash() {
+		t.Fatalf("setup: the b chain did not become best")
+	}
+	j0, snap := store.JournalLen(), store.Snapshot()
+	if err := repo.VerifClean(ctx, 3); err != nil {
+		t.Fatal(err)
+	}
+	ops := store.JournalSince(j0)
+	fails, detail := false, ""
+	for k := 1; k < len(ops) && !fails; k++ {
+		img := memstore.FromSnapshot(snap, ops[:k])
+		loaded := headers.NewRepository(cfg, img)
+		loaded.DisableDifficulty()
+		var lerr error
+		if p := vt.Catch(func() { lerr = loaded.VerifLoad(ctx, 3) }); p != nil || lerr != nil {
+			fails, detail = true, fmt.Sprintf("crash after %d of %d writes of Clean: Load failed: %v %v", k, len(ops), lerr, p)
+			break
+		}
+		tip := model.Hash(loaded.LastHash())
+		chain := a
+		if tip == b[len(b)-1].Hash() {
+			chain = b
+		} else if tip != a[len(a)-1].Hash() {
+			fails, detail = true, fmt.Sprintf("crash after %d of %d writes of Clean: loaded tip is neither chain's tip", k, len(ops))
+			break
+		}
+		for h := 1; h < len(chain) && h <= loaded.Height(); h++ {
+			var got *bitcoin.Hash32
+			var herr error
+			if p := vt.Catch(func() { got, herr = loaded.Hash(ctx, h) }); p != nil || herr != nil || got == nil || model.Hash(*got) != chain[h].Hash() {
+				fails, detail = true, fmt.Sprintf("crash after %d of %d writes of Clean: the loaded repository reports a tip of chain %c but Hash(%d) is not on it", k, len(ops), map[bool]rune{true: 'b', false: 'a'}[tip == b[len(b)-1].Hash()], h)
+				break
+			}
+		}
+	}
+	vt.KnownFinding(t, col, "C12-deepreorg", fails, detail)
+	if !fails {
+		t.Logf("C12-deepreorg no longer reproduces (%d writes)", len(ops))
+	}
+}
+
 // TestRegr_C11_deep_reorg_load replays known finding C11-deepreorg with the real API only: after a
 // reorganisation deeper than the prune depth and a Clean, the old 10002-header chain (now a side
 // branch forking at height 1) overtakes again; Save (unconsolidated) and Load.
